@@ -87,6 +87,34 @@ BadBuilder(e) ==
           /\ \A s \in S : a.final[f[s]] = st.fin[s]
           /\ \A s \in S : \A j \in 1..Len(a.reps) :
                  a.delta[f[s]][j] = f[SpecDelta(st.trans[s], st.dflt[s], a.reps[j])]
+        \* many states: the numbering of the states reachable from the initial one is FORCED (propagate from the
+        \* initial state along the specified successors); only the unreachable rest is searched (if it is small)
+        init == e.calls[1].s
+        RECURSIVE Force(_, _)
+        Force(m, fr) ==
+          IF fr = {} THEN <<TRUE, m>>
+          ELSE LET s == CHOOSE x \in fr : TRUE
+                   pairs == {<<SpecDelta(st.trans[s], st.dflt[s], a.reps[j]), a.delta[m[s]][j]>> : j \in 1..Len(a.reps)}
+                   clash == \/ \E p \in pairs : p[1] \in DOMAIN m /\ m[p[1]] # p[2]
+                            \/ \E p, q \in pairs : p[1] = q[1] /\ p[2] # q[2]
+                   new   == {p \in pairs : p[1] \notin DOMAIN m}
+                   m2    == [x \in DOMAIN m \cup {p[1] : p \in new} |->
+                               IF x \in DOMAIN m THEN m[x] ELSE (CHOOSE p \in new : p[1] = x)[2]]
+               IN IF clash THEN <<FALSE, m>> ELSE Force(m2, (fr \ {s}) \cup {p[1] : p \in new})
+        ExplainsForced ==
+          LET r == Force([x \in {init} |-> a.init], {init})
+              m == r[2]
+              D == DOMAIN m
+              restS == S \ D
+              restA == (1..n) \ {m[x] : x \in D}
+          IN /\ r[1]
+             /\ D \subseteq S
+             /\ \A x, y \in D : x # y => m[x] # m[y]
+             /\ \A x \in D : a.final[m[x]] = st.fin[x]
+             /\ Cardinality(restS) = Cardinality(restA)
+             /\ Cardinality(restS) <= 4 =>
+                   \E g \in {h \in [restS -> restA] : \A x, y \in restS : x # y => h[x] # h[y]} :
+                      Explains([x \in S |-> IF x \in D THEN m[x] ELSE g[x]])
     IN
     Failed({<<"C13:bad_spec_rejected", v # "MustReject">>,
             <<"C13:generator_verdict", e.gen_verdict \in {"", v}>>,
@@ -95,7 +123,8 @@ BadBuilder(e) ==
             <<"C13:num_final", e.str.num_final = Cardinality({s \in S : st.fin[s]}) /\ e.str.num_states = Cardinality(S)>>,
             \* initial state, finals and delta: the explicit transition covering x, else the declared default
             <<"C13:automaton_as_specified",
-               (v # "MustReject" /\ DumpOk(a) /\ n = Cardinality(S)) => \E f \in Numberings : Explains(f)>>})
+               (v # "MustReject" /\ DumpOk(a) /\ n = Cardinality(S)) =>
+                  IF n <= 5 THEN \E f \in Numberings : Explains(f) ELSE ExplainsForced>>})
 
 (* ---- C04 ---- *)
 BadMinimize(e) ==
